@@ -1,5 +1,8 @@
 import DirectVerif.Driver.Common
 import DirectVerif.Model.MaskBudget
+import DirectVerif.Model.C07Magic
+import DirectVerif.Model.C07Bisect
+import DirectVerif.Model.C07Random
 /-!
 # Driver C07 — the budget model executed on recorded draws
 
@@ -10,8 +13,14 @@ import DirectVerif.Model.MaskBudget
   `gauss1d N L Rn Rd | candidates`        candidate columns of the libc stream           → `ok k returned count | bits`
   `gauss2d nrow ncol Rn Rd | acs bits | x₀ y₀ x₁ y₁ …`                                  → `ok k returned count`
   `gchoose N uniform choice | accs (n d)* | cfs (n d)*`  the pair used, #ACS, request  → `ok choice L k` / `err NotImplementedError`
+  `choose uniform choice | accs (n d)* | L per pair`  the pair a call of any generator uses → `ok choice Rn Rd L` / `err NotImplementedError`
+  `magic N lRaw Rn Rd | offsets`          one offset per frame                          → `ok L adj | count formula … | bits of frame 0 | …`
+                         / `err ValueError` when the ACS block uses up the budget
   `bisect Rn Rd tn td | an ad stalled … | post flags`  accelerations seen by the tolerance test; the table of
                          statements after it  → `ok code iters num den` (acceleration of the RETURNED mask)
+  `bisectiv Rn Rd tn td lon lod hin hid | an ad … | sn sd … | post flags`  the interval model with the binary64 midpoint:
+                         accelerations the tolerance test saw, the slopes the real loop probed
+                         → `ok code iters num den first-slope-mismatch(-1 = none)` / `err UnboundLocalError`
 -/
 namespace DirectVerif.Driver.C07
 open DirectVerif DirectVerif.Driver DirectVerif.MaskBudget
@@ -69,12 +78,35 @@ def step (op : String) (gs : List (List Int)) : String :=
     | .ok (c, r) =>
       let L := numLowFreqs N c
       okG [[choice, L, gaussianRequest ((N : Rat) / r) L]]
+  | "choose", [[uniform, choice], accs, ls] =>
+    let toQ := fun (l : List Int) => (pairs l).map fun (n, d) => q n d
+    match choosePair (uniform != 0) (toQ accs) ls choice.toNat with
+    | .error e => "err " ++ e
+    | .ok (r, l) => okG [[choice, r.num, r.den, l]]
+  | "magic", [[N, lRaw, Rn, Rd], offs] =>
+    let p := magicParams N lRaw (q Rn Rd)
+    if p.2.2 ≤ 0 then "err ValueError" else
+    let frames := offs.map fun o => magicMask N.toNat p.2.1.toNat p.2.2.toNat o.toNat
+    okG ([[p.2.1, p.2.2], (offs.zip frames).flatMap fun (o, m) =>
+            [(countTrue m : Int), (magicCountFormula N.toNat p.2.1.toNat p.2.2.toNat o.toNat : Int)]] ++ frames.map bits)
   | "bisect", [[Rn, Rd, tn, td], ps, postFlags] =>
     -- post statements from the generated table; a mask-modifying one has an effect the model cannot know: sentinel -1
     match poisson (q Rn Rd) (q tn td) (probes ps) (postOfTable (postFlags.map fun f => ("", f != 0)) fun _ => -1) with
     | .returned a n => okG [[0, n, a.num, a.den]]
     | .raised n => okG [[1, n, 0, 1]]
     | .running n => okG [[2, n, 0, 1]]
+  | "bisectiv", [[Rn, Rd, tn, td, lon, lod, hin, hid], accs, slopes, postFlags] =>
+    let toQ := fun (l : List Int) => (pairs l).map fun (n, d) => q n d
+    let R := q Rn Rd
+    let tol := q tn td
+    let lo := q lon lod
+    let hi := q hin hid
+    let mism := firstSlopeMismatch (probedSlopes floatMid R tol (toQ accs) lo hi) (toQ slopes)
+    match poissonIv floatMid R tol (toQ accs) lo hi (postOfTable (postFlags.map fun f => ("", f != 0)) fun _ => -1) with
+    | .returned a n _ => okG [[0, n, a.num, a.den, mism]]
+    | .raised n _ => okG [[1, n, 0, 1, mism]]
+    | .running n _ _ => okG [[2, n, 0, 1, mism]]
+    | .notEntered => "err UnboundLocalError"
   | _, _ => "err BadOp"
 
 end DirectVerif.Driver.C07
